@@ -1,6 +1,6 @@
 """C13 - Literals reach the program byte-for-byte.
 
-(1) proofs: Props/C13.v (24 theorems about Lit/Escape.v, Lit/BaseN.v against AVM/Parse.v, Lit/RFC4648.v, Lit/Spec.v)
+(1) proofs: Props/C13.v (25 theorems about Lit/Escape.v, Lit/BaseN.v against AVM/Parse.v, Lit/RFC4648.v, Lit/Spec.v)
 (2) correspondence: pyteal.util.escapeStr, valid_base16/32/64, valid_address, Bytes/Int/Addr/MethodSignature
     (`__teal__` op text) vs the extracted model, exhaustive-small + stratified + seeded random
 (3) semantic oracle independent of the escape model: real compileTeal output, read line by line by the
@@ -337,6 +337,36 @@ class Oracle:
             if r3[1][1:] != s0:
                 self.prevchar_differs += 1
         return bad
+
+
+def shrink(oracle, lit):
+    """Greedy minimisation of a failing Bytes(str) / MethodSignature / Bytes(base,text) literal: drop chunks and
+    single characters while the literal stays well-formed and the oracle still fails."""
+    if lit[0] not in ("utf8", "method", "base") or not isinstance(lit[-1], str):
+        return lit
+    def fails(txt):
+        l = lit[:-1] + (txt,)
+        if expected_value(l) is None:
+            return False
+        r = call_real(lambda: oracle.check_group([l]))
+        return r[0] == "ok" and bool(r[1])
+    txt = lit[-1]
+    budget = 400
+    chunk = max(1, len(txt) // 2)
+    while chunk >= 1 and budget > 0:
+        i = 0
+        progressed = False
+        while i < len(txt) and budget > 0:
+            cand = txt[:i] + txt[i + chunk:]
+            budget -= 1
+            if cand != txt and fails(cand):
+                txt = cand
+                progressed = True
+            else:
+                i += chunk
+        if not progressed:
+            chunk //= 2
+    return lit[:-1] + (txt,)
 
 
 # ---------------------------------------------------------------------------------------------
@@ -759,7 +789,10 @@ def main(argv):
     n_abi = 0
     for s in sigs:
         try:
-            sel = abi.Method.from_signature(s).get_selector()
+            mth = abi.Method.from_signature(s)
+            if mth.get_signature() != s:      # algosdk normalised the text: its selector is of another string
+                continue
+            sel = mth.get_selector()
         except Exception:
             continue
         n_abi += 1
@@ -807,6 +840,14 @@ def main(argv):
         if key in seen or len(seen) >= 8:
             continue
         seen.add(key)
+        small = shrink(oracle, lit) if teal is not None else lit
+        if small != lit:
+            r2 = call_real(lambda: oracle.check_group([small]))
+            if r2[0] == "ok" and r2[1]:
+                lit, what, teal = r2[1][0]
+        if repr(lit) in seen:
+            continue
+        seen.add(repr(lit))
         ck.violation("%s: %s" % (lit[0], what), {"kind": "semantic", "literal": lit_json(lit), "what": what, "teal": teal})
     if mismatch and not fails:
         # correspondence broken but no literal is read back wrongly: run the oracle on the disagreeing inputs
